@@ -25,6 +25,7 @@ type FaultOpts struct {
 	Exe       string // path of this binary (for kill children)
 	Rank      int
 	Sample    int
+	MaxBatch  int
 }
 
 func copyFile(src, dst string) error {
@@ -270,6 +271,7 @@ func (r *Runner) RunFaultHistory(histNo int, o FaultOpts) error {
 		return err
 	}
 	defer r.Close()
+	r.MaxBatch = o.MaxBatch
 	leaves := r.Cfg.LeafQueries()
 	for b := 0; b < o.Batches; b++ {
 		batch := r.GenBatch()
